@@ -1,7 +1,7 @@
 """C01 — register allocation preserves the meaning of the program."""
 import json, os
 
-FILES = ["c09.go", "c02.go", "c01.go", "c01x.go"]
+FILES = ["c09.go", "c02.go", "c01.go", "c01x.go", "c01file.go"]
 
 
 def floors(ctx, sub, floors_):
@@ -51,6 +51,40 @@ def exact_model_info(ctx, sub="c01", driver="drv_c01"):
                          "functions (colour choice is free under the property; the acceptors judge the implementation's own allocation)")
 
 
+def file_route(ctx, driver="drv_c01"):
+    """FILES of 1..5 generated functions through the real entry point pass.Compile.Execute(file): accept-file (Compile reported
+    success => no function of the file is one for which the allocation passes, run on that function alone, found no valid
+    assignment), the per-function acceptors on EVERY function of a successfully compiled file, accept-print (no virtual register
+    in the printed assembly). Floors: every position of the failing function is sampled."""
+    nf = 400 if ctx.tier == "quick" else 8000
+    nt = lambda req, resp: req.startswith("accept-file") and req.endswith("=> ok")
+    if ctx.differential("c01file", nf, nontrivial=nt, driver=driver) is not None:
+        floors(ctx, "c01file", {"files": nf, "compile:ok": nf // 6, "compile:err": nf // 3,
+                                "class:no_failing_function": nf // 8,
+                                "class:failing_function_before_a_succeeding_last": nf // 8,
+                                "class:only_the_last_fails": nf // 25, "class:several_fail": nf // 25,
+                                "class:first_fails_of_several": nf // 10, "class:a_middle_function_fails": nf // 20,
+                                "file_functions:1": nf // 10, "file_functions:5": nf // 10,
+                                "fn_kind:gp_over": nf // 10, "fn_kind:vec_over": nf // 25, "fn_kind:k_over": nf // 25,
+                                "fn_kind:hb_over": nf // 25, "fn_kind:rex_clash": nf // 25, "fn_kind:bad_label": nf // 25,
+                                "fn_route:ok": nf, "fn_route:err": nf // 2,
+                                "compiled_functions_judged_with_virtuals": nf // 3, "printed_files": nf // 6})
+        ceilings(ctx, "c01file", {"failing_builder_compiled": 0, "compiled_function_not_judged": 0, "print_error": 0,
+                                  "file_build_rejected": 0})
+    ctx.coverage["file_route_rule"] = (
+        "files of 1..5 generated functions (form-table functions, SP/K0 idioms, staircases, pressure exactly at the register file in "
+        "each kind, 1..4 simultaneous high-byte views; and, in every position — first / a middle one / last / not-last / several / all "
+        "/ none —, functions WITHOUT a valid assignment: 16..20 GP, 33..36 vector, 8..10 opmask values live at once, 5..7 simultaneous "
+        "high-byte views, a high-byte view next to R8B..R15B/SIB/DIB, a jump to an undefined label) through the real entry point "
+        "pass.Compile.Execute(file). accept-file (sound: checkFile_sound => statement FileOK; the model of Compile satisfies it for all "
+        "files: compileFile_okB, compileFile_err_of_fn_err, compileFile_checkFile, and the library's stage-major order agrees with it: "
+        "compileFileStaged_ok_iff): Compile reported success => no function of the file is one on which the real allocation passes, run "
+        "on an identical copy of that ONE function, reported an error. Compile reported success => EVERY function of the file is judged "
+        "by accept-alloc / accept-bind / accept-enc on what Compile left in its operands, inputs and outputs (model: "
+        "compileFile_bound_ok). accept-print (sound: noVirtualText_sound): the text of the real Go-assembly printer for the compiled "
+        "file contains the printed form `<virtual:…>` of no virtual register. An error of Compile is always acceptable")
+
+
 def run(ctx):
     if not ctx.build_harness(FILES):
         return
@@ -73,6 +107,7 @@ def run(ctx):
                             "bound:regmove_virt_phys": n // 10, "bound:regmove_virt_virt": n // 25, "bound:rcopy_functions": n // 16})
         ceilings(ctx, "c01", {"cfg_rejected": n // 50, "liveness_error": 0})
         exact_model_info(ctx)
+    file_route(ctx)
     # measured end to end on the CPU: avo-compiled vs private-storage execution of the same program
     nx, trials = (150, 48) if ctx.tier == "quick" else (6000, 256)
     if ctx.differential("c01x", nx, extra=["-dir", os.path.join(ctx.dir, "x-gen"), "-trials", str(trials)],
